@@ -152,17 +152,23 @@ def _value(rng, kind, nodes, class_nodes=None):
 
 def gen_graph(rng, n_nodes=8, n_classes=3, n_props=4, bnodes=False,
               kinds=("node", "str", "int", "lang", "date", "iri"),
-              prop_namespaces=(EX,), multi_class=True, density=0.6, twins=0.06, meta=0.12, odd_classes=0.1):
+              prop_namespaces=(EX,), multi_class=True, density=0.6, twins=0.06, meta=0.12, odd_classes=0.1, same_local_classes=0.0, clash_props=0.0):
     """A general graph: nodes with 0..2 classes, each (node, prop) present with
     probability `density`, 1..3 values of one randomly chosen kind."""
     classes = [EX + "C%d" % i for i in range(n_classes)]
     if rng.random() < odd_classes:
         # valid class IRIs whose local name is not a plain word (shape labels are derived from it)
         classes = [EX + "C%d,x" % i for i in range(n_classes)]
+    if same_local_classes and n_classes >= 2 and rng.random() < same_local_classes:
+        # two classes of different vocabularies that share their local name (foaf:Person / schema:Person)
+        classes[1] = OTHER + classes[0][len(EX):]
     props = []
     for i in range(n_props):
         ns = prop_namespaces[i % len(prop_namespaces)]
         props.append(ns + "p%d" % i)
+    if clash_props and rng.random() < clash_props:
+        # the same local name in two vocabularies (ex:p0 and oth:p0)
+        props.append((OTHER if props[0].startswith(EX) else EX) + props[0][max(props[0].rfind("/"), props[0].rfind("#")) + 1:])
     nodes = []
     for i in range(n_nodes):
         if bnodes and rng.random() < 0.3:
@@ -373,6 +379,8 @@ def gen_shape_map(rng, triples, n_items=None, type_prop=RDF_TYPE):
 
 def _split_iri(i):
     k = max(i.rfind("#"), i.rfind("/"))
+    if k < 0:
+        k = i.rfind(":")        # urn:..., mailto:...
     return i[:k + 1], i[k + 1:]
 
 
@@ -396,23 +404,31 @@ def _pname_ok(local):
     return re.match(r"^[A-Za-z][A-Za-z0-9_]*$", local) is not None
 
 
-def to_turtle(triples, group=True, use_a=True, dialect="standard", prefixed_custom_datatypes=False):
+def to_turtle(triples, group=True, use_a=True, dialect="standard", prefixed_custom_datatypes=False, label_salt=0, base=None, full_nonhttp=False):
     """Turtle with @prefix lines, prefixed names, 'a', ';' and ',' grouping.
     dialect='iter': the subset sheXer's streaming reader documents (closures are
     separate tokens; datatypes written with the xsd: prefix or as full IRIs)."""
     table = _prefix_table(triples)
+    if label_salt:
+        # rotate the labels: the same label then names different namespaces in different documents of one delivery
+        keys = list(table)
+        table = {ns: "n%d" % ((i + label_salt) % len(keys)) for i, ns in enumerate(keys)}
     if dialect == "iter":
         if XSD in table:
             table[XSD] = "xsd"
         if RDF_NS in table:
             table[RDF_NS] = "rdf"
+    if base and any(t[0] == "i" and not t[1].startswith("http") for tr in triples for t in tr):
+        base = None     # sheXer's streaming reader resolves every non-http IRI against @base: keep those documents base-free
 
     def term(t, pred=False):
         if t[0] == "i":
             if pred and use_a and t[1] == RDF_TYPE:
                 return "a"
             ns, local = _split_iri(t[1])
-            if ns and _pname_ok(local):
+            if base and t[1].startswith(base) and _pname_ok(t[1][len(base):]):
+                return "<%s>" % t[1][len(base):]      # relative IRI
+            if ns and _pname_ok(local) and not (full_nonhttp and not t[1].startswith("http")):
                 return "%s:%s" % (table[ns], local)
             return "<%s>" % t[1]
         if t[0] == "b":
@@ -428,6 +444,8 @@ def to_turtle(triples, group=True, use_a=True, dialect="standard", prefixed_cust
             return '"%s"^^<%s>' % (lex, dt)
         return '"%s"^^%s:%s' % (lex, table[ns], local)
     out = ["@prefix %s: <%s> ." % (p, ns) for ns, p in table.items()]
+    if base:
+        out.insert(0, "@base <%s> ." % base)
     out.append("")
     if not group:
         for s, p, o in triples:
